@@ -6,5 +6,7 @@ import "gonum.org/v1/gonum/internal/verif/vlib"
 func main() {
 	vlib.Main("C09",
 		vlib.Group{Name: "quad", Gen: genQuad},
+		vlib.Group{Name: "dgemm", Gen: genDgemm},
+		vlib.Group{Name: "fd", Gen: genFD},
 	)
 }
